@@ -153,7 +153,7 @@ func (w *World) userBody(ui int) {
 		case "validate", "countx", "dup", "duplistener", "duplistener-bad", "register-none", "stopctx":
 			w.userControl(ui, op)
 			continue
-		case "register", "enroll", "enroll-other":
+		case "register", "enroll", "enroll-other", "enroll-loop", "register-loop":
 			w.userRegister(ui, op)
 			continue
 		case "cdial", "cenroll":
